@@ -378,3 +378,44 @@ def nearest_ticks(fr):
 
 def is_int(x):
     return type(x) is int
+
+
+# ----------------------------------------------------------------------------- defaults derived from the settings alone
+
+def default_note_values(settings):
+    """allowed note values implied by the settings (normal, tuplet and dotted durations) — computed here from the settings
+    constants, not through the library's helper functions, so that a corrupted or shared-and-mutated default list in the
+    library cannot silently move the oracle with it"""
+    ppqn = settings.PPQN
+    normal = []
+    i = settings.NOTE_VALUE_UPPER_BOUND
+    while i >= 1:
+        normal.append(int(i * ppqn))
+        i /= 2
+    j = 2
+    while j <= settings.NOTE_VALUE_LOWER_BOUND:
+        normal.append(int(ppqn / j))
+        j *= 2
+    out = list(normal)
+    for (num, den) in settings.VALID_TUPLETS:
+        out += [int(d * den / num) for d in normal]
+    for it in range(settings.DOTTED_ITERATIONS):
+        for d in normal:
+            c = d * (1 + (1 - 1 / (2 ** (it + 1))))
+            if float(c).is_integer():
+                out.append(int(c))
+    return out
+
+
+def default_step_sizes(settings, upper_shift=0, lower_shift=0):
+    ppqn = settings.PPQN
+    normal = []
+    i = 1 * 2 ** upper_shift
+    while i >= 1:
+        normal.append(int(i * ppqn))
+        i /= 2
+    j = 2
+    while j <= 4 * 2 ** lower_shift:
+        normal.append(int(ppqn / j))
+        j *= 2
+    return normal + [int(d * 2 / 3) for d in normal]
